@@ -102,10 +102,9 @@ Proof.
     rewrite (n3_val a b c 1) by lra end.
   cbn [bind]. rewrite !(proj1 (dot_expansion _ _ _ _ _ _)).
   cbn [vadd vsub vdivs map map2 oadd osub odiv oZ RO Rops vnth List.nth neg].
-  unfold g_intersect_2lines2D. cbv zeta. cbn [vhead2 firstn]. rewrite det2_expansion, oabs_R.
-  match goal with |- context [oltb RO (Rabs ?e) ?q] =>
-    replace e with 4 by (unfold neg; cbn [osub oZ RO Rops zero]; lra);
-    replace (oltb RO (Rabs 4) q) with false
-      by (symmetry; unfold oltb, oQ; cbn [oleb odiv oZ RO Rops]; apply negb_false_iff; apply Rleb_true; rewrite Rabs_right; lra) end.
+  unfold g_intersect_2lines2D. cbv zeta. cbn [vhead2 firstn]. rewrite det2_expansion.
+  cbv [g_dot vdot vsum vmul map2 fold_right oQ neg RO Rops omul oadd osub odiv oZ oleb zero].
+  match goal with |- context [Rleb ?a ?b] =>
+    replace (Rleb a b) with false by (symmetry; apply Rleb_false; lra) end.
   cbn [bind_opt]. eexists. reflexivity.
 Qed.
